@@ -22,6 +22,15 @@ RULE = ('(a) every typed attribute (own and forwarded; found by reflection '
         'section must make the trees unequal. Non-trivial = assignment of an '
         'invalid value, or a perturbation; distinct = fingerprint of (case '
         'kind, spec seed, attribute, value).')
+RULE += (
+         ' Also: str / int / bytes subclass instances, str- and int-mixin '
+         'enum members and OrderedDict in the value pool (a stored value '
+         'must be of the declared type and an allowed choice when read '
+         'back); pairs of metadata that differ only in ways a serialised '
+         'form hides ({1: x} vs {"1": x}, list vs tuple, 1 vs "1", NFC vs '
+         'NFD) must make trees unequal. Process axes (DESIGN 2.8): 2 of 16 '
+         'shards run under python -O, 4 of 16 after a hostile warm-up of the'
+         ' library.')
 FLOOR = {'quick': 15000, 'thorough': 400000}
 REQUIRED_REACH = ['dom/properties.py:', 'dom/objects.py:']
 REQUIRED_COUNTERS = ['constructor_keywords_rejected', 'valid_assignments', 'invalid_assignments_rejected',
